@@ -17,9 +17,9 @@ CLAIMS = {
  "C02": ("security.CheckPAACookie and GeneratePAAToken executed symbolically around contract stubs of go-jose/go-oidc: acceptance implies HS256 allow-list, MAC under the PAA signing key (not any other gateway key), issuer, expiry with the real go-jose Validate arithmetic over symbolic times, IdP verdict on the embedded access token, tunnel bound to the verified claims; minting: HS256 + signing key, expiry - now <= 300 s, refusal under 32 bytes.",
          "6.C02", "Cryptography is replaced by contracts (DESIGN Appendix C): unforgeability, base64/JSON parsing, bit-mutation resistance and 'a freshly minted token is accepted' are NOT decided; claim strings are 2 (4) symbolic bytes."),
  "C03": ("channelRequest/DecodeUTF16 decoded against an independent per-code-unit oracle for all names up to 3 (quick) / 5 (thorough) UTF-16 units and all declared sizes; the step harness proves the string given to CheckHost is byte-equal to the string dialed and that a refusal dials nothing; security.CheckHost/CheckSession policy over bounded host lists and names against an oracle written from the property text.",
-         "6.C03", "Names <= 5 units, host strings <= the stated byte bounds, <= 2 (3) host entries with affixes <= 1 (2) bytes; DNS/IPv6 semantics of the dialed string are outside (the property is byte equality)."),
+         "6.C03", "Names <= 5 units, host strings <= the stated byte bounds, <= 2 (3) host entries with affixes <= 1 byte; DNS/IPv6 semantics of the dialed string are outside (the property is byte equality)."),
  "C04": ("CheckSession for all token/presenting address pairs (<= 3/5 bytes, attribute present/absent/non-string) and both switch settings; EnrichContext's client-address derivation from X-Forwarded-For / peer address against an independent oracle; the cookie check binds the tunnel to the verified address claim and the mint writes the clientIp attribute (shared C02 harnesses).",
-         "6.C04", "X-Forwarded-For <= 4 (7) ASCII bytes; four representative peer addresses; textual variants of one IP are different strings by design of the property."),
+         "6.C04", "X-Forwarded-For <= 4 (6) ASCII bytes; four representative peer addresses; textual variants of one IP are different strings by design of the property."),
  "C05": ("BasicAuth / NTLMAuth middlewares and NoAuthz/SetAuthenticate executed symbolically against a stubbed authentication service (next handler reached iff the backend confirmed, identity = confirmed name, 401/500 and challenge headers otherwise, no panic for any header value the route matcher can deliver), and the route table that main() builds for every startable subset of mechanisms: the tunnel handler is reachable bare iff OpenID is the only mechanism, otherwise only through the wrapper of an enabled scheme whose keyword the header carries; no header -> 401 with one challenge per enabled scheme.",
          "6.C05", "main() is executed up to ListenAndServe with gorilla/mux's builder methods recording a ghost route table (VP_C05_routes): requests with an arbitrary Authorization value (<= 9/12 bytes) are dispatched by mux's documented rules (registration order, unanchored HeadersRegexp, MatcherFunc), for every startable mechanism subset. gorilla/mux's own matching, regexp beyond literal words, SPNEGO validation and net/http header parsing are contracts, not decided."),
  "C06": ("forward() and receive() executed symbolically: per read / per DATA packet exactness, header and payload length fields, order, single write, no invented bytes; sizes around 0,1,2,255,4085,4086 (thorough 256,4087,8200).",
@@ -31,11 +31,11 @@ CLAIMS = {
  "C09": ("Lockset analysis over the executor's heap-access logs: handler threads of two tunnels and their relay goroutines (cooperative scheduler: goroutines switch where the running one blocks) - any pair of accesses to Tunnel/Gateway/registry/client-writer state from different threads with a write, no common sync.Mutex and no spawn order is a violation, replayed natively under the Go race detector.",
          "6.C09", "No schedule exploration: lockset is conservative for mutex discipline but blind to channel-based ordering; races inside gorilla/net/http/go-cache are outside; 2 websocket tunnels, one scenario shape."),
  "C10": ("Every implicit runtime panic on every explored path is an SMT obligation: protocol parsers and readHeader on arbitrary bytes, the Process step, legacy request orderings, the NTLM verifier on arbitrary messages and on adversarial security-buffer descriptors (real go-ntlm parser code interpreted), Authorization header slicing, KDC-proxy list merge and channel accounting.",
-         "6.C10", "setSendReceiveBuffers (reflect), net/http parsing, gorilla, gRPC, PAM (cmd/auth does not build here) and asn1 are outside; message lengths <= 24/40 bytes (NTLM), bodies <= 12/20 bytes (protocol)."),
+         "6.C10", "setSendReceiveBuffers (reflect), net/http parsing, gorilla, gRPC, PAM (cmd/auth does not build here) and asn1 are outside; message lengths <= 24/28 bytes (NTLM), bodies <= 12/20 bytes (protocol)."),
  "C11": ("handleWebsocketProtocol / the legacy handler pair run for 0..6 (8) set-up/data packets followed by each way the client side can end; ghost state at return: backend closed, both client transports closed, registry entry gone, gauges restored, and the relay goroutine terminates (cooperative scheduler; a goroutine left parked is a violation).",
          "6.C11", "Transports, dial and backend are stubs; 'bounded time' is reduced to 'no goroutine left parked forever'; OS sockets and real scheduling are not observed."),
  "C12": ("HandleDownload, the Authenticated middleware, security.QueryInfo and the composition mint->tunnel checks executed symbolically: no token/file for unauthenticated sessions, host chosen per selection policy, token claims = host with user substituted / user without domain / address / access token, forced gateway settings, and acceptance of the issued host+token by CheckSession(CheckHost).",
-         "6.C12", "RDP text rendering (reflection) is stubbed (see C19); strings <= 2 (3) bytes; assumes the IdP userinfo subject equals the session user name (DESIGN 7.14)."),
+         "6.C12", "RDP text rendering (reflection) is stubbed (see C19); strings <= 2 bytes, <= 2 (3) host entries; assumes the IdP userinfo subject equals the session user name (DESIGN 7.14)."),
  "C13": ("HandleCallback executed over every failure point (state, code exchange, id_token, verification, claims, user-name claims) with contract stubs for go-cache/oauth2/go-oidc/json: an authenticated identity reaches the session store only if every step succeeded and a non-empty user-name claim exists; identity field mapping of Marshal/Unmarshal restored for all ten fields.",
          "6.C13", "securecookie integrity, the file store, ID-token cryptography and go-cache's expiry behaviour are contracts, not decided."),
  "C14": ("K<=3 (4) NTLM requests over two session ids (negotiate / authenticate with symbolic user / undecodable / non-NTLM / empty), real NTLMAuth + ntlmContext + database code and real go-ntlm parsers, the cryptographic verdict a symbolic predicate per (message, session): authenticated implies negotiate earlier in the same live context, configured non-empty password, proof against that session's challenge, exact user name; contexts dropped on error/success; completeness.",
@@ -48,7 +48,7 @@ CLAIMS = {
          "6.C17", "Transport stub; handshake body <= 8 bytes."),
  "C18": ("config.Load's post-unmarshal logic with koanf stubbed: fatal iff one of the five inconsistent combinations; each key of length 0/1/31/32/33 kept or replaced by a 32-character string from the 63-letter alphabet with one CSPRNG draw per character; NewHandler without hosts and InitStore with short keys are fatal; GenerateRandomString against its specification.",
          "6.C18", "YAML/env parsing and precedence (koanf, reflection) are not encoded; that two instances draw different keys is a property of the CSPRNG."),
- "C19": ("RDP.Marshal/Unmarshal on settings maps of <= 2 (3) entries with symbolic ASCII keys/values (round trip, one CRLF line per setting) and an independent classifier for every ASCII line of <= 5 (7) bytes (malformed lines rejected, not skipped); real bufio.Scanner/strings/sort code interpreted.",
+ "C19": ("RDP.Marshal/Unmarshal on settings maps of <= 2 entries (keys/values <= 2 (3) bytes) with symbolic ASCII keys/values (round trip, one CRLF line per setting) and an independent classifier for every ASCII line of <= 5 (7) bytes (malformed lines rejected, not skipped); real bufio.Scanner/strings/sort code interpreted.",
          "6.C19", "Builder.String is executed with an engine model of the fatih/structs reflection API (tags, kinds, values from the static types): eight settings set arbitrarily are read back through the line parser with 'absent = built-in default' (VP_C19_builder). NewBuilderFromFile and template precedence (koanf, mapstructure) are NOT encoded; integers are boundary representatives (a symbolic 64-bit Itoa/Atoi round trip does not bit-blast); ASCII only."),
  "C20": ("KerberosProxy.Handler/forward/awaitReply executed with stubbed KDC list, dial, connections and asn1: rejection statuses contact no KDC, list merge for every (udp,tcp) count, exactly the embedded message per protocol, every request answered (channel sends/receives balanced under the cooperative scheduler), reply = a KDC's reply with the 4-byte prefix for UDP.",
          "6.C20", "DER validity, 128 KiB bodies beyond the size checks, real UDP/TCP timing are outside; <= 2 (3) KDCs per protocol."),
